@@ -1,4 +1,10 @@
+/-
+  Tie proofs for the regenerated module.go functions, part 2: checkElem (its three loops and the function).
+  `for _, r := range elem` is a fuel loop over byte offsets; `GoRtStr.range_step` links it to `Utf8.runes`.
+-/
 import ModVerif.Proofs.TieFnModuleChar
+import ModVerif.Proofs.ModuleUtf8
+import ModVerif.Tie.Module
 namespace ModVerif.TieFnModule
 open ModVerif ModVerif.GoRt ModVerif.GoRtStr
 
@@ -92,5 +98,104 @@ theorem checkElem_loop3_spec (ef : Bytes → Bytes → Bool) (il : Int → Bool)
       have hlt' : ¬ ((k : Int) < len suffix) := by simp [len_eq]; omega
       subst hk'
       exact ⟨(suffix.length : Int), by simp [len_eq, Utf8.runes, Utf8.runesAux]⟩
+
+
+theorem badNames_any (ef : Bytes → Bytes → Bool) (short : Bytes)
+    (hfold : ∀ bad ∈ Module.badWindowsNames, ∀ s, ef bad s = Module.equalFoldAscii bad s) :
+    Generated.module_badWindowsNames.any (ef · short) = Module.badWindowsNames.any (Module.equalFoldAscii · short) := by
+  rw [Tie.module_badWindowsNames_tie]
+  generalize Module.badWindowsNames = l at hfold
+  induction l with
+  | nil => rfl
+  | cons b l ih =>
+    simp only [List.any_cons, hfold b (by simp) short, ih (fun x hx => hfold x (by simp [hx]))]
+
+theorem looksLikeShortName_not_mem (s : Bytes) (h : (126 : UInt8) ∉ s) : Module.looksLikeShortName s = false := by
+  simp [Module.looksLikeShortName, Module.afterLastTilde, h]
+
+theorem looksLikeShortName_split (pre suf : Bytes) (h : (126 : UInt8) ∉ suf) :
+    Module.looksLikeShortName (pre ++ 126 :: suf) = (!suf.isEmpty && suf.all Module.isDigit) := by
+  have hc : (pre ++ 126 :: suf).contains 126 = true := by simp
+  simp only [Module.looksLikeShortName, Module.afterLastTilde, hc, if_true, reverse_takeWhile_split pre suf 126 h]
+
+theorem digits_runes (s : Bytes) : (Utf8.runes s).all isDigitRune = s.all Module.isDigit := by
+  rw [Utf8.runes_all_of_ascii_pred isDigitRune (by intro r h; simp [isDigitRune] at h; omega)]
+  apply List.all_congr rfl
+  simp only [isDigitRune, Module.isDigit, UInt8.le_iff_toNat_le]
+  intro a; rfl
+
+theorem short_cut {β : Type} (elem : Bytes) (K : Bytes → M β) :
+    (if decide (index elem [46] ≥ 0) = true then (sliceTo elem (index elem [46]) >>= fun t17 => K t17) else K elem)
+      = K (Module.shortOf elem) := by
+  by_cases h : (46 : UInt8) ∈ elem
+  · have : index elem [46] ≥ 0 := (index_single_nonneg elem 46).mpr h
+    simp only [this, decide_true, if_true, take_index_single elem 46 h, bind_ok, Module.shortOf]
+  · have : ¬ index elem [46] ≥ 0 := fun e => h ((index_single_nonneg elem 46).mp e)
+    simp only [this, decide_false, Bool.false_eq_true, if_false, Module.shortOf, takeWhile_ne_of_not_mem h]
+
+theorem checkElem_spec (ef : Bytes → Bytes → Bool) (il : Int → Bool) (kind : Module.Kind) (elem : Bytes) (fuel : Nat)
+    (hfold : ∀ bad ∈ Module.badWindowsNames, ∀ s, ef bad s = Module.equalFoldAscii bad s)
+    (hf : elem.length + 23 ≤ fuel) :
+    Generated.Module.checkElem ef il fuel elem (kindInt kind) =
+      .ok (errOf (Module.checkElem (natLetter il) kind elem)) := by
+  unfold Generated.Module.checkElem Module.checkElem
+  by_cases h0 : elem = []
+  · subst h0; simp [errOf, msg]
+  have h0' : elem.isEmpty = false := by cases elem <;> simp at h0 ⊢
+  simp only [h0, decide_false, Bool.false_eq_true, if_false, h0']
+  rw [count_single_eq_len]
+  by_cases h1 : elem.all (· == 46) = true
+  · simp [h1, errOf, msg]
+  simp only [h1, Bool.false_eq_true, if_false]
+  rw [idx_zero_eq_head elem h0, bind_ok]
+  have hk0 : decide (kindInt kind = 0) = (kind == Module.Kind.module) := by cases kind <;> rfl
+  have hk2 : decide (kindInt kind = 2) = (kind == Module.Kind.file) := by cases kind <;> rfl
+  rw [first_byte_test elem h0 (n := 46) 46 rfl, hk0]
+  by_cases h2 : (elem.head? == some 46 && kind == Module.Kind.module) = true
+  · simp [h2, errOf, msg]
+  simp only [h2, Bool.false_eq_true, if_false]
+  rw [idx_last elem h0, bind_ok, last_byte_test elem h0 (n := 46) 46 rfl]
+  by_cases h3 : (elem.getLast? == some 46) = true
+  · simp [h3, errOf, msg]
+  simp only [h3, Bool.false_eq_true, if_false]
+  have hl1 := checkElem_loop1_spec ef il elem kind fuel 0 (by omega) (by omega)
+  simp only [Int.natCast_zero, List.drop_zero] at hl1
+  rw [hl1, bind_ok]
+  cases h4 : (Utf8.runes elem).all (Module.charOK (natLetter il) kind)
+  · simp [errOf, msg]
+  simp only [if_true, Bool.not_true, Bool.false_eq_true, if_false]
+  rw [short_cut]
+  have hsl : (Module.shortOf elem).length ≤ elem.length := length_takeWhile_le _ _
+  generalize Module.shortOf elem = short at hsl ⊢
+  have hn : Generated.module_badWindowsNames.length = 22 := by decide
+  have hl2 := checkElem_loop2_spec ef il short fuel 0 (by omega) (by omega)
+  simp only [Int.natCast_zero, List.drop_zero, badNames_any ef short hfold] at hl2
+  rw [hl2, bind_ok, hk2]
+  by_cases h5 : Module.badWindowsNames.any (Module.equalFoldAscii · short) = true
+  · simp [h5, errOf, msg]
+  simp only [h5, Bool.false_eq_true, if_false]
+  by_cases h6 : (kind == Module.Kind.file) = true
+  · simp [h6, errOf]
+  simp only [h6, Bool.false_eq_true, if_false]
+  by_cases h7 : (126 : UInt8) ∈ short
+  · obtain ⟨pre, suf, rfl, hsuf⟩ := exists_last_split 126 short h7
+    rw [lastIndexByte_split pre suf (n := 126) 126 rfl hsuf, looksLikeShortName_split pre suf hsuf]
+    cases suf with
+    | nil => simp [len_eq, errOf]
+    | cons c suf =>
+      have hlt : (pre.length : Int) < len (pre ++ 126 :: c :: suf) - 1 := by simp [len_eq]; omega
+      have hge : (pre.length : Int) ≥ 0 := by omega
+      have hsf : sliceFrom (pre ++ 126 :: c :: suf) ((pre.length : Int) + 1) = .ok (c :: suf) := by
+        have := sliceFrom_natCast (v := pre ++ 126 :: c :: suf) (k := pre.length + 1) (by simp)
+        simpa using this
+      obtain ⟨j, hl3⟩ := checkElem_loop3_spec ef il (c :: suf) true fuel 0 (by omega)
+        (by simp at hsl ⊢; omega)
+      simp only [Int.natCast_zero, List.drop_zero, Bool.true_and, digits_runes] at hl3
+      simp only [hlt, hge, decide_true, Bool.and_self, if_true, hsf, bind_ok, hl3, List.isEmpty_cons, Bool.not_false,
+        Bool.true_and]
+      by_cases h8 : (c :: suf).all Module.isDigit = true
+      · simp [h8, errOf, msg]
+      · simp [h8, errOf]
+  · simp [lastIndexByte_not_mem short (n := 126) 126 rfl h7, looksLikeShortName_not_mem short h7, errOf]
 
 end ModVerif.TieFnModule
